@@ -590,6 +590,11 @@ func ckksEvalOnce(c *eng.Ctx, rnd *eng.Rand, x *ckksCtx, job ckksJob, need int) 
 		return fmt.Sprintf("%+v: output scale %v, requested %v", job, &res.Scale.Value, &target.Value)
 	})
 	c.Check(res.Degree() == 1, sigp+"|output-degree", func() string { return fmt.Sprintf("%+v: degree %d", job, res.Degree()) })
+	// metadata other than the scale (packing, NTT / Montgomery domain) is that of the input
+	c.Check(metaSame(res.MetaData, ct.MetaData), sigp+"|output-metadata", func() string {
+		return fmt.Sprintf("%+v: output metadata %+v / %+v, input %+v / %+v", job, res.LogDimensions, res.CiphertextMetaData, ct.LogDimensions, ct.CiphertextMetaData)
+	})
+	c.Count("metadata_checks", 1)
 
 	// ---- values
 	out := make([]*bignum.Complex, slots)
